@@ -28,7 +28,7 @@ class Ctx:
 
 
 BUILTIN_NAMES = {"len", "isinstance", "iter", "next", "getattr", "str", "bool", "int", "type", "cast", "tuple", "list",
-                 "bytes", "super", "object", "hasattr", "range", "dict", "repr", "print", "chain", "callable", "id",
+                 "bytes", "super", "object", "hasattr", "issubclass", "range", "dict", "repr", "print", "chain", "callable", "id",
                  "ValueError", "TypeError", "KeyError", "IndexError", "NotImplementedError", "AssertionError",
                  "StopIteration", "Exception", "RuntimeError", "AttributeError", "LookupError"}
 
@@ -637,15 +637,15 @@ class ExprMixin(EngineBase):
         remaining = st
         for k, v in pairs:
             c = self.equal(remaining, key, k, node)
+            miss = None
             for st1, b in self.branch(remaining, c, f"L{getattr(node, 'lineno', 0)}tbl"):
                 if b:
                     yield st1, v
                 else:
-                    remaining = st1
-            if c is True:
-                return
-            if not self.feasible(remaining):
-                return
+                    miss = st1
+            if miss is None:
+                return          # the key certainly equals this entry (the "no match" branch is infeasible)
+            remaining = miss
         yield remaining, Raised(ExcVal("KeyError"))
 
     def eval_Lambda(self, e: ast.Lambda, st: State, ctx: Ctx) -> Res:
@@ -669,6 +669,12 @@ class ExprMixin(EngineBase):
             if model is not None and hasattr(model, "iterate_all"):
                 yield from model.iterate_all(self, st, v, node)
                 return
+            if o.kind == "obj" and isinstance(o.cls, ClassInfo):
+                for ext in o.cls.external_bases():
+                    model = self.reg.models.get("base:" + ext)
+                    if model is not None and hasattr(model, "iterate_all"):
+                        yield from model.iterate_all(self, st, v, node)
+                        return
         raise Unsupported(f"cannot iterate {_kind(v)} completely", node)
 
 
